@@ -15,6 +15,7 @@ EXPLANATION = (
 RULE = "one obligation per atomic write site of each budget word, per try_withdraw return-true site, per deposit write"
 TRUSTED = ["std atomics: fetch_update/compare_exchange are atomic on one word", "rustc MIR construction"]
 ASSUMPTIONS = ["RetryBudget implementors are the public anchor for discovering budget state"]
+CONFIG_CRATES = ["tower_resilience_retry"]
 TECHNIQUE = "static analysis of built MIR: atomic read-modify-write discipline (value-flow from load to store/CAS), guard dominance"
 
 BUDGET_TRAIT = "tower_resilience_retry::budget::RetryBudget"
